@@ -286,6 +286,52 @@ def r12_4(ctx, rep):
     affine_rebuild(ctx, rep, "R12.4")
 
 
+@SPEC.rule(
+    "R12.7",
+    "the SX-to-MX translation of expand_mx is node for node: every value the nested translator (_sx_to_mx in _expand_simplify_mx) returns for "
+    "a node with operands is built with the node's own operator (`ca.MX.unary(sx.op(), ...)`, `ca.MX.binary(sx.op(), ...)`) from the "
+    "translations of its own operands in their order — or assembles a matrix from its elements; a case that recognises a pattern and emits "
+    "another operator (two if_else_zero halves put back together as one if_else) changes what the residual computes when the pattern has "
+    "another origin",
+)
+def r12_7(ctx, rep):
+    R = "R12.7"
+    outer = ctx.func(MODEL, "Model._expand_simplify_mx", R)
+    site = MODEL + ":Model._expand_simplify_mx"
+    inner = [f for f in ast.walk(outer) if isinstance(f, ast.FunctionDef) and f is not outer and any(
+        isinstance(c, ast.Call) and is_name(c.func, f.name) for c in ast.walk(f))]
+    if not inner:
+        raise MechanismMissing(R, "the recursive SX-to-MX translator was not found in _expand_simplify_mx")
+    f = inner[0]
+    p = f.args.args[0].arg
+    n = 0
+
+    def rec(e):
+        return isinstance(e, ast.Call) and is_name(e.func, f.name)
+
+    for r_ in ast.walk(f):
+        if not isinstance(r_, ast.Return) or r_.value is None:
+            continue
+        v = r_.value
+        if not any(rec(x) for x in ast.walk(v)):
+            continue  # leaves: symbol lookup, constant
+        n += 1
+        cn = (call_name(v) or "") if isinstance(v, ast.Call) else ""
+        last = cn.split(".")[-1]
+        ok, why = False, "built with `%s`" % (cn or norm(v)[:40])
+        if last in ("unary", "binary") and len(v.args) == (2 if last == "unary" else 3):
+            own_op = norm(v.args[0]) == "%s.op()" % p
+            deps = all(rec(a) and len(a.args) == 1 and norm(a.args[0]) == "%s.dep(%d)" % (p, k) for k, a in enumerate(v.args[1:]))
+            ok = own_op and deps
+            why = "operator `%s`, operands %s" % (norm(v.args[0]), [norm(a)[:30] for a in v.args[1:]])
+        elif last in ("vertcat", "horzcat", "blockcat", "reshape"):
+            ok = True
+        rep.ob(R, site, "return #%d keeps the node's operator and operands" % n, ok,
+               "`%s` — %s: the translated expression is not the expression that was expanded" % (norm(r_)[:70], why))
+    if n < 2:
+        raise MechanismMissing(R, "fewer than 2 constructing returns found in the SX-to-MX translator")
+
+
 # -- seeded variants ---------------------------------------------------------
 @SPEC.rule(
     "R12.5",
